@@ -21,7 +21,7 @@ from mdsa.cfg import CFG, walk_local
 from mdsa.loader import AnalysisError, NoFold
 
 from . import c02
-from .common import Ctx, guarded_interproc, index_kind, node_of
+from .common import Ctx, guarded_interproc, index_kind, local_defs, node_of
 
 O = "ih5.overlay"
 EXPLANATION = (
@@ -277,6 +277,24 @@ def r3_create(P, rep, ctx):
     rep.check(bool(refuse) and all(g.exit not in g.reach([b for b, l in g.succ[t.idx] if l == "T"]) for t in refuse), "C01.R3", fi.qual, "an existing group/dataset at the path is refused (replace = delete first)", fi.loc(),
               construct="exists test in create_dataset", message="create_dataset does not refuse an existing group/dataset")
     cv = P.func(f"{O}.IH5Group._create_virtual")
+    gv = ctx.cfg(cv)
+    tests = {norm(x.exprs[0]): x.idx for x in gv.nodes if x.kind == "test"}
+    t_exists = "nodes[-1]._gpath == path and nodes[-1]._cidx == self._last_idx and (not _node_is_del_mark(nodes[-1]))"
+    t_missing = "nodes[-1]._gpath != path or _node_is_del_mark(nodes[-1])"
+    t_nested = "len(suf_segs) > 1"
+    okv = all(k in tests for k in (t_exists, t_missing, t_nested))
+    if okv:
+        rets = {n.idx: norm(n.stmt.value) for n in gv.nodes if isinstance(n.stmt, ast.Return)}
+        f_ret = [i for i, v in rets.items() if v == "False"]
+        t_ret = [i for i, v in rets.items() if v == "True"]
+        ow = [n.idx for n in gv.nodes if n.kind == "stmt" and norm(n.stmt) == "self.create_group(f'{nodes[-1]._gpath}/{suf_segs[0]}')"]
+        carr = [n.idx for n in gv.nodes if n.kind == "stmt" and norm(n.stmt) == "self._files[-1].create_group(path)"]
+        okv = (bool(f_ret) and all(gv.edge_dominates(tests[t_exists], "T", i) for i in f_ret) and bool(t_ret) and bool(ow) and bool(carr)
+               and all(gv.edge_dominates(tests[t_missing], "T", i) for i in ow) and gv.every_path_passes(ow, gv.exit, src=tests[t_missing], src_label="T")
+               and all(gv.edge_dominates(tests[t_nested], "T", i) and gv.every_path_passes(ow, i) for i in carr) and gv.every_path_passes(carr, gv.exit, src=tests[t_nested], src_label="T")
+               and gv.every_path_passes([tests[t_exists]], gv.exit) and all(gv.every_path_passes([tests[t_missing]], i) for i in t_ret))
+    rep.check(okv, "C01.R3", cv.qual, "write path: nothing to do only if a live node exists in the newest container; otherwise the first missing ancestor becomes an overwrite group (via create_group) before deeper carriers are created", cv.loc(),
+              construct="_create_virtual decision structure", message="_create_virtual does not implement 'overwrite group for the first missing/deleted ancestor, then carriers' (test or order changed): new data can be hidden behind an older deletion or old children can reappear")
     t = norm(cv.node)
     rep.check("self.create_group(f'{nodes[-1]._gpath}/{suf_segs[0]}')" in t and "self._files[-1].create_group(path)" in t, "C01.R3", cv.qual, "first missing ancestor is created as overwrite group (through create_group), deeper ones as carriers", cv.loc(),
               construct="_create_virtual body", message="_create_virtual does not create the first missing ancestor through create_group (substitution marker) and the rest as plain carriers")
@@ -354,6 +372,28 @@ def r6_move_copy(P, rep, ctx):
     dl = [n.idx for n in g.nodes if n.kind == "stmt" and isinstance(n.stmt, ast.Delete) and norm(n.stmt) == f"del self[{fi.params[1]}]"]
     ok = bool(cp) and bool(dl) and g.every_path_passes(cp, g.exit) and g.every_path_passes(dl, g.exit) and all(g.every_path_passes(cp, d) for d in dl)
     rep.check(ok, "C01.R6", fi.qual, "move == overlay copy followed by overlay delete of the source, on every path", fi.loc(), construct="move = copy + delete", message="IH5Group.move is not `self.copy(source, dest); del self[source]` on every path: the source may survive or no deletion marker is left")
+    cpf = P.func(f"{O}.IH5Group.copy")
+    d = local_defs(cpf)
+    want = {"src_node": ["self[source] if isinstance(source, str) else source"], "segs": ["self._abs_path(dest).split('/')"], "dst_group": ["self.require_group('/'.join(segs[:-1]) or '/')", "dest if dest.name != '/' else dest['/']"],
+            "dst_name": ["segs[-1]", "name"], "name": ["kwargs.pop('name', src_node.name.split('/')[-1])"]}
+    got = {k: sorted(norm(v) for kk, v in d.get(k, []) if v is not None) for k in want}
+    rep.check(all(got[k] == sorted(v) for k, v in want.items()), "C01.R6", cpf.qual, "copy: a path destination means <parent group>/<last segment>; a group destination means <group>/<given or source name>", cpf.loc(), construct=f"copy destination resolution {got}",
+              message=f"IH5Group.copy resolves source/destination differently from h5py ({ {k: v for k, v in got.items() if v != sorted(want[k])} })")
+    gcp = ctx.cfg(cpf)
+    st = [t for t in gcp.nodes if t.kind == "test" and norm(t.exprs[0]) == "isinstance(dest, str)"]
+    segn = [n.idx for n in gcp.nodes if n.kind == "stmt" and norm(n.stmt) == "dst_name = segs[-1]"]
+    rep.check(len(st) == 1 and bool(segn) and all(gcp.edge_dominates(st[0].idx, "T", x) for x in segn), "C01.R6", cpf.qual, "the path form applies exactly when dest is a str", cpf.loc(), construct="dest kind test", message="IH5Group.copy treats str / node destinations the wrong way round")
+    from .common import require_total
+
+    for q in (f"{O}.IH5Group.copy", f"{O}.IH5Group.create_dataset", f"{O}.IH5Group.create_group", f"{O}.IH5Group._create_virtual", f"{O}.IH5InnerNode._children", f"{O}.IH5InnerNode._node_seq", f"{O}.IH5InnerNode._find", f"{O}.IH5InnerNode.__getitem__", f"{O}.IH5InnerNode.__contains__", f"{O}.IH5InnerNode._expect_real_item_idx", f"{O}.IH5InnerNode._get_child", f"{O}.IH5InnerNode._get_child_raw", f"{O}._list_children"):
+        require_total(rep, ctx, "C01.R6", P.func(q))
+    h = P.func(f"{O}.h5_copy_from_to")
+    gh = ctx.cfg(h)
+    writes = [n.idx for n in gh.nodes if any(call_attr(c) in ("create_group", "create_dataset") and norm(c.func.value) == "target_group" for c in gh.calls(n.idx))]
+    for txt, what in (("target_path in target_group", "an existing target path is refused (copy never overwrites)"), ("not target_path or target_path[0] == '/'", "an empty or absolute target path is refused"), ("kwargs", "unknown keyword arguments are refused")):
+        tt = [t.idx for t in gh.nodes if t.kind == "test" and norm(t.exprs[0]) == txt]
+        ok = bool(tt) and all(gh.exit not in gh.reach([b for b, l in gh.succ[t] if l == "T"]) and not (set(writes) & gh.reach([b for b, l in gh.succ[t] if l == "T"])) for t in tt) and all(gh.every_path_passes(tt, w) for w in writes)
+        rep.check(ok, "C01.R6", h.qual, f"copy precondition: {what}, before anything is written", h.loc(), construct=f"precondition `{txt}`", message=f"h5_copy_from_to no longer refuses when `{txt}` before writing: the operation succeeds/fails differently from the plain tree")
     fi = P.func(f"{O}.IH5Group.__setitem__")
     rets = [norm(x.value) for x in walk_local(fi.node) if isinstance(x, ast.Return)]
     rep.check(rets == ["self.create_dataset(path, data=value)"], "C01.R6", fi.qual, "group item assignment is create_dataset", fi.loc(), construct="__setitem__", message=f"IH5Group.__setitem__ is {rets}")
